@@ -117,8 +117,9 @@ func (sm *ShardManager) cleanupRoutine(ls *loadedShard, backupFrequency, backupC
 		case <-timer.C:
 			sm.logger.Debug().Str("shardDir", shardDir).Msg("Unloading shard")
 			ls.mu.Lock()
-			defer ls.mu.Unlock() // we commit to exiting the cleanup goroutine here
+			// we commit to exiting the cleanup goroutine here
 			if ls.shard == nil {
+				ls.mu.Unlock()
 				sm.logger.Debug().Str("shardDir", shardDir).Msg("Shard already unloaded")
 				return
 			}
@@ -145,8 +146,14 @@ func (sm *ShardManager) cleanupRoutine(ls *loadedShard, backupFrequency, backupC
 			// is closed in case they are waiting on the lock
 			sm.logger.Debug().Str("shardDir", shardDir).Msg("Removing loaded shard")
 			ls.shard = nil
+			/* The shard lock must not be taken while holding the loaded shard
+			 * lock, DeleteCollectionShards takes them in the opposite order.
+			 * Requests that still get this entry see the nil shard. */
+			ls.mu.Unlock()
 			sm.shardLock.Lock()
-			delete(sm.shardStore, shardDir)
+			if current, ok := sm.shardStore[shardDir]; ok && current == ls {
+				delete(sm.shardStore, shardDir)
+			}
 			sm.shardLock.Unlock()
 			// ---------------------------
 			return
